@@ -26,6 +26,8 @@ _FIXED = [
     b"!ZZZZ\r\n", b"!12\xff4\r\n", b"!\r\n", b"!A077\r\n", b"!0000\r\n", b"! 1F\r\n", b"!\xff\r\n", b"!12", b"!G\n", b"!-1\r\n", b"!0x\r\n",
     b"1-0:1.8.0(00001605.055*kWh)\r\n", b"1-0:1.8.0(\xe5)\r\n", b"/ABC5x\r\n1-0:1.7.0(1*kW)\r\n",
     bytes.fromhex("7ea0"), bytes.fromhex("7ea7ff0101103883"), bytes.fromhex("7d7e"), bytes.fromhex("7e7d7e"),
+    bytes.fromhex("7ea00801020110378d7e"), bytes.fromhex("7ea00801020110378c7e"),  # header-only frame (no information field): good / bad check sequence
+    bytes.fromhex("7ea00c0102011027a00201e7de7e"), bytes.fromhex("7ea00c0102011027a00201e7df7e"),  # short frame: good / bad FCS
 ]
 
 token_st = st.one_of(
@@ -39,6 +41,8 @@ token_st = st.one_of(
 
 TARGETS = ["hdlc00", "hdlc01", "hdlc10", "hdlc11", "p1"]
 PROTO_TARGETS = [("payload", "HP"), ("payload", "PH"), ("message", "HP"), ("message", "PH"), ("payload", "P"), ("message", "H")]
+# a valid message first, so that a reader is already selected when the noise arrives
+PRESELECT = {"H": bytes.fromhex("7ea00c0102011027a00201e7de7e"), "P": GENUINE_READOUT}
 
 _loop = None
 
@@ -104,12 +108,14 @@ def run_reader(name, noise, cuts, tail_seed):
     return n_msgs
 
 
-def run_protocol(kind, order, noise, cuts):
+def run_protocol(kind, order, noise, cuts, preselect=None):
     _ensure_loop()
     readers = [hdlc.HdlcFrameReader(False) if c == "H" else dlde.ModeDReader() for c in order]
     q = asyncio.Queue()
     cls = meter_connection.SmartMeterMessagePayloadProtocol if kind == "payload" else meter_connection.SmartMeterMessageProtocol
     proto = guarded(cls, q, readers, what=cls.__name__)
+    if preselect is not None:
+        guarded(proto.data_received, PRESELECT[preselect], what=f"{cls.__name__}.data_received (valid message)")
     for ch in GH.split(noise, cuts):
         guarded(proto.data_received, ch, what=f"{cls.__name__}.data_received[{order}]")
     n = 0
@@ -128,6 +134,10 @@ def oracle(case) -> Info:
         total += run_reader(name, noise, cuts, tail_seed)
     for kind, order in PROTO_TARGETS:
         total += run_protocol(kind, order, noise, cuts)
+    # the same with a reader already selected by a preceding valid message (selected reader = the HDLC / the P1 reader)
+    for kind in ("payload", "message"):
+        for pre in ("H", "P"):
+            total += run_protocol(kind, "HP", noise, cuts, preselect=pre)
     structural = any(c in noise for c in b"/!\n\x7e\x7d")
     high = any(c >= 0x80 for c in noise)
     bad_end = False
@@ -158,7 +168,8 @@ def build() -> Check:
             "Noise = concatenation of up to 14 tokens: structural bytes (/ ! LF CR 7E 7D), bytes >= 0x80, identification-like lines (also "
             "with '!' or non-ASCII inside), end lines with hex / non-hex / non-ASCII text, data lines, random binary, arbitrary slices of a "
             "genuine readout and a genuine frame; x a drawn splitting. Every case is run through the HDLC reader in all 4 configurations, the "
-            "P1 reader, and both protocol classes with candidate lists [HDLC,P1], [P1,HDLC], [P1], [HDLC]; every returned message is asked "
+            "P1 reader, and both protocol classes with candidate lists [HDLC,P1], [P1,HDLC], [P1], [HDLC], and again after a valid frame / a valid "
+            "readout has already selected a reader; every returned message is asked "
             "is_valid/payload/as_bytes/message_type; then a clean tail (3 frames/readouts; 150 flag-free frames without stuffing) must be "
             "delivered per C16's rule. Non-trivial = the noise contains a structural character and (a byte >= 0x80 or a malformed end "
             "line). Failures are bucketed by (exception type, innermost han function). Distinct = case hash. coverage-guided: atheris "
